@@ -448,6 +448,12 @@ def align_variable_names_with_convention(
                 # Don't rename magic members, don't rename if there is inheritance.
                 if partial_tree.bases or parsing.is_magic_method(node):
                     renamings[node] = {name}
+                # Don't rename methods that are preserved, or accessed as attributes of some
+                # object, since those accesses cannot be renamed with it.
+                if f"{partial_tree.name}.{name}" in preserve or any(
+                    core.walk(ast_tree, ast.Attribute(attr=name))
+                ):
+                    renamings[node] = {name}
                 funcdefs.append(node)
                 substitute = style.rename_variable(
                     name, private=parsing.is_private(name), static=False
@@ -459,6 +465,8 @@ def align_variable_names_with_convention(
                 name = node.id
                 # Don't rename magic members, don't rename if there is inheritance.
                 if partial_tree.bases or (name.startswith("__") and name.endswith("__")):
+                    renamings[node] = {name}
+                if any(core.walk(ast_tree, ast.Attribute(attr=name))):
                     renamings[node] = {name}
                 substitute = style.rename_variable(
                     name, private=parsing.is_private(name), static=False
